@@ -5,6 +5,38 @@ import json, os
 HERE = os.path.dirname(os.path.abspath(__file__))
 
 CHECKS = {
+ "C05": dict(level="model_checking", ref="DESIGN.md §5 C05",
+   technique="explicit-state exploration of the open/save machine (state = file bytes, transition = save(load(X))) from an exhaustive set of initial files",
+   text="Initial states: all 52 fixtures, rv-written files for every module type x every single deviation, and every fixture with each stored controller value / options byte / link or slot entry / note velocity replaced by boundary and out-of-range values (also inside embedded projects and effects; ~4 100 mutants). Each loadable X is driven through 3 (thorough 5) load/save transitions: the chain must be constant from Y1 on, write_to must not change the object's snapshot, two consecutive write_to give equal bytes.",
+   note="Unloadable mutants are outside the quantifier and only counted. A deterministic byte function can only start drifting at the first cycle, so few cycles decide all n."),
+ "C08": dict(level="model_checking", ref="DESIGN.md §5 C08",
+   technique="explicit-state BFS over Project.connect (C07 driver) with save/load and all SLnK-subset file variants evaluated once per reached state",
+   text="Every link state reached by single-operand requests to depth 4 (thorough 5) and by the full list/~ alphabet to depth 1 (thorough 2) is saved and loaded: the four link tables must come back exactly (up to trailing freed slots). On the written bytes every subset of slot chunks is removed and every subset of missing ones added; after loading, invariants I1-I4 hold and the directed edge set equals the saved one.",
+   note="Slot order is only demanded when the file carries slots for every linked module. Chunk edits via rvref.codec. States deeper than the stated depths are not round-tripped."),
+ "C12": dict(level="exploration", ref="DESIGN.md §5 C12",
+   technique="complete enumeration of (old word, sub-field, new value) triples, note cells and pattern images",
+   text="Every NOTECMD x every velocity, all 65 536 values of module/ctl/val through the 8-byte codec; k-distinct pattern images for 20 shapes through Pattern.raw_data and through a PDTA chunk (load, save, independent decode: row-major, byte-identical); packed words: note ctl/val sub-field setters for every old high byte x {0,0xA5,0xFF} low byte and vice versa (thorough: all 65 536 old words) x all 256 new values; visualization words over all defined members x reserved bits clear/set x every sub-field x every in-domain value; MIDI-in and sync flags for every (old, new) pair through SMII/SFGS incl. independent decode.",
+   note="Visualization setters are exercised on the word object (module.visualization returns a fresh wrapper)."),
+ "C14": dict(level="model_checking", ref="DESIGN.md §5 C14",
+   technique="explicit-state BFS over attach/new_module/+=/attach_pattern/reload with a lock-step reference model of slot layout and ownership",
+   text="From the empty project, from 16 reference-encoded files with every pattern of empty positions among slots 1..4 and from the issue54 fixture, every history of 16 operations up to depth 4 (thorough 5): index == position, parent is the project, position 0 is the Output, patterns owned, new module lands in the lowest empty position else at the end with all other positions holding the same objects, refused attaches raise the ownership error and leave both projects' snapshots unchanged, double attach is a no-op, note.mod resolves for every module number 0..len+1.",
+   note="Model written from the property text. A project with a second Output() is checked for invariants but never reloaded."),
+ "C17": dict(level="model_checking", ref="DESIGN.md §5 C17",
+   technique="exhaustive (A, B) pair exploration: every catalogue/in-place operation history (depth 1, depth 2 for in-place ops) with every B origin observed",
+   text="For every module type (and Project/Pattern/Synth): every catalogue deviation and every in-place payload mutation (list element assignment, append, mapping field, link list, MIDI map, envelope, note map, sample, MetaModule count/label/mapping/inner project) applied to A, and every ordered pair of in-place operations; B obtained independently, by clone(), by loading A's bytes and by construction afterwards must keep snapshot and written bytes; clone->original direction; saving/loading/cloning A does not change A; class controller registries and the strictness flag unchanged.",
+   note="Observation is rvmc.snapshot + written bytes. Pristine defaults are captured in the parent process before any mutation."),
+ "C18": dict(level="fault_enumeration", ref="DESIGN.md §5 C18",
+   technique="exhaustive single-fault enumeration at the file-object seam (every read/seek/tell index, every chunk-reader construction, every truncation point)",
+   text="For every fixture x both initial flag values x {caller's file object, path opened by the library}: OSError at each read/seek/tell call, an exception at each construction of the IFF chunk reader (reaches nested loads), truncation at every chunk boundary and every byte (<4 KiB files; thorough: all), nested containers truncated at their own chunk boundaries, unknown module type, out-of-range value. After return or raise the flag is the identical previous value, a library-opened handle is closed, the caller's handle is not, and a strict out-of-range assignment still raises.",
+   note="Path mode wraps pathlib.Path.open from the check (no source hook). Single-fault plans only."),
+ "C19": dict(level="fault_enumeration", ref="DESIGN.md §5 C19",
+   technique="exhaustive fault-point enumeration (failure at every cell / yield index) over all bulk-edit histories up to depth 2 (3)",
+   text="Shapes {1,2,3}^2 (thorough {1..4}^2), attached and unattached patterns; ops: set_via_fn ok / failing at every cell, set_via_gen yielding none/each cell/a row/all and failing after every yield count; every history of length <= 2 (3). A failed edit leaves cells and raw_data identical; a successful edit installs exactly the supplied notes, keeps untouched cells, and every note's pattern is the pattern (project-aware accessors work).",
+   note="Reference grid of 5-tuples; callables return fresh Note objects."),
+ "C20": dict(level="exploration", ref="DESIGN.md §5 C20",
+   technique="complete enumeration of the value axis (all 32 769 inputs) end to end on real modules over a fixed parameter grid; all 502 macro targets",
+   text="MultiCtl.macro for every (type, controller), 16 / 17 targets, duplicate module; for each distinct fixed-range span (10 quick, all 51 thorough) and each tuple of a gain x quantization x window (both orientations) x curve grid (36 quick / ~115 thorough) every input 0..32768 is delivered through MultiCtl.value: delivered value within the target's range and monotone in the input; a link whose mapping names no controller leaves the target's snapshot unchanged on every type.",
+   note="Parameter tuples are a fixed grid (the property's own quantifier says so); the value axis is complete. Curves are monotone tables."),
  "C01": dict(level="model_checking", ref="DESIGN.md §5 C01",
    technique="deviation-bounded exhaustive enumeration of projects + explicit-state BFS of a builder machine, save/load round trip as per-state oracle",
    text="Every project with at most one deviation from the default (each project field x width corners, 146 names placing a 1-4 byte character at every offset around the 32-byte limit, every pattern/clone/empty sequence of length <= 3, every NOTECMD and 16-bit corner in note cells, each of 42 module types x every single deviation of its controllers/options/common fields/MIDI bindings/payload arrays, linked type pairs) and every state of a builder machine (attach/empty slot/connect/disconnect/pattern/note/field/controller ops, depth 5 quick / 6 thorough) is saved and loaded; the loaded snapshot must equal the original and the load must not raise.",
